@@ -43,6 +43,10 @@ Judge(cl) == /\ bad' = bad \cup NewBad(cl)
              /\ hits' = hits \cup {c[1] : c \in {x \in cl : Len(x) = 2 \/ x[3]}}
              /\ halt' = FALSE
              /\ l' = l + 1
+StuckSet(names) == /\ bad' = bad \cup names /\ halt' = TRUE /\ first' = IF first = 0 THEN l ELSE first
+                   /\ l' = l + 1 /\ UNCHANGED <<vars, dr, hits>>
+(* a run that began while no job was pending or running must submit exactly the stale part of the cone (C06) *)
+PlanBroken == {"C02_set"} \cup (IF conv.ok THEN {"C06_rerun_exact"} ELSE {})
 Stuck(name) == /\ bad' = bad \cup {name} /\ halt' = TRUE /\ first' = IF first = 0 THEN l ELSE first
                /\ l' = l + 1 /\ UNCHANGED <<vars, dr, hits>>
 
@@ -112,7 +116,7 @@ TRunBegin ==
 OldHold(t) == {h \in HoldFor(t) : jobs[h].tgt \notin gp.plan}
 TRunSubmit ==
   /\ Ev.act = "RunSubmit"
-  /\ IF gp.pc # "run" \/ Ev.t \notin gp.plan THEN Stuck("C02_set")
+  /\ IF gp.pc # "run" \/ Ev.t \notin gp.plan THEN StuckSet(PlanBroken)
      ELSE IF Ev.t \notin gp.todo THEN Stuck("C02_once")
      ELSE IF RunPrereq(Ev.t) \cap gp.todo # {} THEN Stuck("C02_order")
      ELSE /\ RunSubmitH(Ev.t, {h \in S(Ev.hold) : h \in JobIds}) /\ dr' = dr
@@ -142,7 +146,7 @@ EndClauses(e) == {
 
 TRunEnd ==
   /\ Ev.act = "RunEnd"
-  /\ IF gp.pc # "run" \/ gp.todo # {} THEN Stuck("C02_set")
+  /\ IF gp.pc # "run" \/ gp.todo # {} THEN StuckSet(PlanBroken)
      ELSE /\ RunEnd /\ dr' = FALSE
           /\ Judge(EndClauses(Ev) \cup {<<"C02_exit", Ev.exit = 0>>,
                                          <<"C06_rerun_noop", dr => \A t \in gp.plan : w.out[t] = {}, dr>>})
